@@ -81,6 +81,11 @@ def collision(rec, names):
     return bool(called & used)
 
 
+import fsic.parser as _fsic_parser
+from .concolic import vf as _vf
+_fsic_parser.vf = _vf      # build_model() executes the class text in the parser module's namespace
+
+
 def parse(script):
     with warnings.catch_warnings():
         warnings.simplefilter('ignore')
@@ -250,7 +255,7 @@ def run_reference(rec, names, span, t, table):
         store.write(s['lhs']['n'], s['lhs']['k'], v)
     for item in rec.get('codeorder', []):      # the specification's code order: the verbatim blocks run after the equations
         if item['kind'] == 'verb':
-            ev.append(('v', item['i']))
+            ev.append(('v', 0 if rec['verbat'][item['i'] - 1]['form'] == 'same' else item['i']))
     return ev
 
 
@@ -654,10 +659,10 @@ def check_c15(rec, names, symbols, seed):
         for hints in (True, False):
             M = fsic.build_model(symbols, with_type_hints=hints, **kw)
             variants[f'build_model(hints={hints})'] = M
-            ns = {'BaseModel': fsic.BaseModel, 'List': _List, 'Optional': _Optional, 'Any': _Any, 'np': np}
+            ns = {'BaseModel': fsic.BaseModel, 'List': _List, 'Optional': _Optional, 'Any': _Any, 'np': np, 'vf': _vf}
             exec(fsic.build_model_definition(symbols, with_type_hints=hints, **kw), ns)
             variants[f'definition-text(hints={hints})'] = ns['Model']
-            ns2 = {'BaseModel': fsic.BaseModel, 'List': _List, 'Optional': _Optional, 'Any': _Any, 'np': np}
+            ns2 = {'BaseModel': fsic.BaseModel, 'List': _List, 'Optional': _Optional, 'Any': _Any, 'np': np, 'vf': _vf}
             exec(M.CODE, ns2)
             variants[f'CODE(hints={hints})'] = ns2['Model']
             if M.CODE != fsic.build_model_definition(symbols, with_type_hints=hints, **kw):
